@@ -3,7 +3,8 @@
     instance of the model (exact arithmetic); the floating-point implementation is tied to
     them by the metamorphic check harness/props/c12.py (paired implementation runs). *)
 From Coq Require Import Reals List.
-From D3 Require Import Base.Ops Base.Vec Base.RVec Base.RVec2 Spec.Convex Proofs.Equivariance.
+From D3 Require Import Base.Ops Base.Vec Base.RVec Base.RVec2 Spec.Convex Model.Support Model.Contain
+     Model.DistPrim Proofs.Equivariance Proofs.EquivarianceSupport Proofs.EquivarianceDist.
 Local Open Scope R_scope.
 
 (** ** specification level: what every narrow-phase property is stated with *)
@@ -104,6 +105,369 @@ Theorem C12_local_point_invariant (Rg : M3 R) (t : V3R) (T : Pose R) (p : V3R) :
   inverse_transform_point (compose (P Rg t) T) (rigid Rg t p) = inverse_transform_point T p.
 Proof. exact (local_point_invariant Rg t T p). Qed.
 Print Assumptions C12_local_point_invariant.
+
+(** ** the modelled closed-form layer: support functions and containment predicates
+    ([move Rg t T] is the pose T composed with the motion; see Proofs/EquivarianceSupport.v) *)
+Theorem C12_support_cylinder_equivariant :
+  forall (Rg : M3 R) (t : V3R),
+  is_rotation Rg ->
+  forall (d : V3R) (T : Pose R) (r l : R),
+  support_cylinder (mulMV Rg d) (move Rg t T) r l = rigid Rg t (support_cylinder d T r l).
+Proof. exact support_cylinder_equivariant. Qed.
+Print Assumptions C12_support_cylinder_equivariant.
+
+Theorem C12_support_capsule_equivariant :
+  forall (Rg : M3 R) (t : V3R),
+  is_rotation Rg ->
+  forall (d : V3R) (T : Pose R) (r h : R),
+  support_capsule (mulMV Rg d) (move Rg t T) r h = rigid Rg t (support_capsule d T r h).
+Proof. exact support_capsule_equivariant. Qed.
+Print Assumptions C12_support_capsule_equivariant.
+
+Theorem C12_support_ellipsoid_equivariant :
+  forall (Rg : M3 R) (t : V3R),
+  is_rotation Rg ->
+  forall (d : V3R) (T : Pose R) (radii : V3R),
+  support_ellipsoid (mulMV Rg d) (move Rg t T) radii = rigid Rg t (support_ellipsoid d T radii).
+Proof. exact support_ellipsoid_equivariant. Qed.
+Print Assumptions C12_support_ellipsoid_equivariant.
+
+Theorem C12_support_box_equivariant :
+  forall (Rg : M3 R) (t : V3R),
+  is_rotation Rg ->
+  forall (d : V3R) (T : Pose R) (h : V3R),
+  support_box (mulMV Rg d) (move Rg t T) h = rigid Rg t (support_box d T h).
+Proof. exact support_box_equivariant. Qed.
+Print Assumptions C12_support_box_equivariant.
+
+Theorem C12_support_cone_equivariant :
+  forall (Rg : M3 R) (t : V3R),
+  is_rotation Rg ->
+  forall (d : V3R) (T : Pose R) (r h : R),
+  support_cone (mulMV Rg d) (move Rg t T) r h = rigid Rg t (support_cone d T r h).
+Proof. exact support_cone_equivariant. Qed.
+Print Assumptions C12_support_cone_equivariant.
+
+Theorem C12_support_sphere_equivariant :
+  forall (Rg : M3 R) (t : V3R),
+  is_rotation Rg ->
+  forall (d c : V3R) (r : R),
+  d <> vzero -> support_sphere (mulMV Rg d) (rigid Rg t c) r = rigid Rg t (support_sphere d c r).
+Proof. exact support_sphere_equivariant. Qed.
+Print Assumptions C12_support_sphere_equivariant.
+
+Theorem C12_support_ellipse_equivariant :
+  forall (Rg : M3 R) (t : V3R),
+  is_rotation Rg ->
+  forall (d c a0 a1 : V3R) (r0 r1 : R),
+  support_ellipse (mulMV Rg d) (rigid Rg t c) (mulMV Rg a0) (mulMV Rg a1) r0 r1 =
+  rigid Rg t (support_ellipse d c a0 a1 r0 r1).
+Proof. exact support_ellipse_equivariant. Qed.
+Print Assumptions C12_support_ellipse_equivariant.
+
+Theorem C12_support_margin_equivariant :
+  forall (Rg : M3 R) (t : V3R),
+  is_rotation Rg ->
+  forall (inner d : V3R) (m : R),
+  support_margin (rigid Rg t inner) (mulMV Rg d) m = rigid Rg t (support_margin inner d m).
+Proof. exact support_margin_equivariant. Qed.
+Print Assumptions C12_support_margin_equivariant.
+
+Theorem C12_support_hull_equivariant :
+  forall (Rg : M3 R) (t : V3R),
+  is_rotation Rg ->
+  forall (d : V3R) (vs : list V3R),
+  support_hull (mulMV Rg d) (map (rigid Rg t) vs) = option_map (rigid Rg t) (support_hull d vs).
+Proof. exact support_hull_equivariant. Qed.
+Print Assumptions C12_support_hull_equivariant.
+
+Theorem C12_support_box_collider_equivariant :
+  forall (Rg : M3 R) (t : V3R),
+  is_rotation Rg ->
+  forall (d : V3R) (T : Pose R) (size : V3R),
+  support_box_collider (mulMV Rg d) (move Rg t T) size =
+  option_map (rigid Rg t) (support_box_collider d T size).
+Proof. exact support_box_collider_equivariant. Qed.
+Print Assumptions C12_support_box_collider_equivariant.
+
+Theorem C12_mesh_query_equivariant :
+  forall (Rg : M3 R) (t : V3R),
+  is_rotation Rg ->
+  forall (fuel : nat) (T : Pose R) (vs : list V3R) (conn : list (nat * list nat))
+  (shortcuts : list nat) (first_idx : nat) (d : V3R),
+  mesh_query fuel (move Rg t T) vs conn shortcuts first_idx (mulMV Rg d) =
+  option_map (fun ip : nat * V3R => (fst ip, rigid Rg t (snd ip)))
+  (mesh_query fuel T vs conn shortcuts first_idx d).
+Proof. exact mesh_query_equivariant. Qed.
+Print Assumptions C12_mesh_query_equivariant.
+
+Theorem C12_center_cone_equivariant :
+  forall (Rg : M3 R) (t : V3R) (T : Pose R) (h : R),
+  center_cone (move Rg t T) h = rigid Rg t (center_cone T h).
+Proof. exact center_cone_equivariant. Qed.
+Print Assumptions C12_center_cone_equivariant.
+
+Theorem C12_first_vertex_capsule_equivariant :
+  forall (Rg : M3 R) (t : V3R) (T : Pose R) (r h : R),
+  first_vertex_capsule (move Rg t T) r h = rigid Rg t (first_vertex_capsule T r h).
+Proof. exact first_vertex_capsule_equivariant. Qed.
+Print Assumptions C12_first_vertex_capsule_equivariant.
+
+Theorem C12_to_local_move :
+  forall (Rg : M3 R) (t : V3R),
+  is_rotation Rg -> forall (T : Pose R) (p : V3R), to_local (move Rg t T) (rigid Rg t p) = to_local T p.
+Proof. exact to_local_move. Qed.
+Print Assumptions C12_to_local_move.
+
+Theorem C12_point_in_sphere_invariant :
+  forall (Rg : M3 R) (t : V3R),
+  is_rotation Rg ->
+  forall (p c : V3R) (r : R), point_in_sphere (rigid Rg t p) (rigid Rg t c) r = point_in_sphere p c r.
+Proof. exact point_in_sphere_invariant. Qed.
+Print Assumptions C12_point_in_sphere_invariant.
+
+Theorem C12_point_in_box_invariant :
+  forall (Rg : M3 R) (t : V3R),
+  is_rotation Rg ->
+  forall (p : V3R) (T : Pose R) (size : V3R),
+  point_in_box (rigid Rg t p) (move Rg t T) size = point_in_box p T size.
+Proof. exact point_in_box_invariant. Qed.
+Print Assumptions C12_point_in_box_invariant.
+
+Theorem C12_point_in_ellipsoid_invariant :
+  forall (Rg : M3 R) (t : V3R),
+  is_rotation Rg ->
+  forall (p : V3R) (T : Pose R) (radii : V3R),
+  point_in_ellipsoid (rigid Rg t p) (move Rg t T) radii = point_in_ellipsoid p T radii.
+Proof. exact point_in_ellipsoid_invariant. Qed.
+Print Assumptions C12_point_in_ellipsoid_invariant.
+
+Theorem C12_point_in_convex_mesh_invariant :
+  forall (Rg : M3 R) (t : V3R),
+  is_rotation Rg ->
+  forall (p : V3R) (T : Pose R) (vs : list V3R) (ts : list (nat * nat * nat)),
+  point_in_convex_mesh (rigid Rg t p) (move Rg t T) vs ts = point_in_convex_mesh p T vs ts.
+Proof. exact point_in_convex_mesh_invariant. Qed.
+Print Assumptions C12_point_in_convex_mesh_invariant.
+
+Theorem C12_point_in_disk_invariant :
+  forall (Rg : M3 R) (t : V3R),
+  is_rotation Rg ->
+  forall (p c : V3R) (r : R) (n : V3R),
+  point_in_disk (rigid Rg t p) (rigid Rg t c) r (mulMV Rg n) = point_in_disk p c r n.
+Proof. exact point_in_disk_invariant. Qed.
+Print Assumptions C12_point_in_disk_invariant.
+
+Theorem C12_point_in_cylinder_invariant :
+  forall (Rg : M3 R) (t : V3R),
+  is_rotation Rg ->
+  forall (p : V3R) (T : Pose R) (r l : R),
+  point_in_cylinder (rigid Rg t p) (move Rg t T) r l = point_in_cylinder p T r l.
+Proof. exact point_in_cylinder_invariant. Qed.
+Print Assumptions C12_point_in_cylinder_invariant.
+
+Theorem C12_point_in_cone_invariant :
+  forall (Rg : M3 R) (t : V3R),
+  is_rotation Rg ->
+  forall (p : V3R) (T : Pose R) (r h : R),
+  point_in_cone (rigid Rg t p) (move Rg t T) r h = point_in_cone p T r h.
+Proof. exact point_in_cone_invariant. Qed.
+Print Assumptions C12_point_in_cone_invariant.
+
+Theorem C12_point_in_capsule_invariant :
+  forall (Rg : M3 R) (t : V3R),
+  is_rotation Rg ->
+  forall (p : V3R) (T : Pose R) (r h : R),
+  point_in_capsule (rigid Rg t p) (move Rg t T) r h = point_in_capsule p T r h.
+Proof. exact point_in_capsule_invariant. Qed.
+Print Assumptions C12_point_in_capsule_invariant.
+
+Theorem C12_support_sphere_zero_direction_refuted :
+  exists (Rg : M3 R) (c : V3R) (r : R),
+  is_rotation Rg /\
+  support_sphere (mulMV Rg vzero) (rigid Rg vzero c) r <> rigid Rg vzero (support_sphere vzero c r).
+Proof. exact support_sphere_zero_direction_refuted. Qed.
+Print Assumptions C12_support_sphere_zero_direction_refuted.
+
+(** ** the modelled distance leaves (Model/DistPrim.v): [map2]/[map3] move the returned points, keep the
+    distance; [smap2] scales both (Proofs/EquivarianceDist.v) *)
+Theorem C12_point_to_line_rigid :
+  forall (Rg : M3 R) (t : V3R),
+  is_rotation Rg ->
+  forall p lp ld : V3R,
+  point_to_line (rigid Rg t p) (rigid Rg t lp) (mulMV Rg ld) = map2 Rg t (point_to_line p lp ld).
+Proof. exact point_to_line_rigid. Qed.
+Print Assumptions C12_point_to_line_rigid.
+
+Theorem C12_point_to_line_segment_rigid :
+  forall (Rg : M3 R) (t : V3R),
+  is_rotation Rg ->
+  forall p s e : V3R,
+  point_to_line_segment (rigid Rg t p) (rigid Rg t s) (rigid Rg t e) =
+  map2 Rg t (point_to_line_segment p s e).
+Proof. exact point_to_line_segment_rigid. Qed.
+Print Assumptions C12_point_to_line_segment_rigid.
+
+Theorem C12_line_to_line_rigid :
+  forall (Rg : M3 R) (t : V3R),
+  is_rotation Rg ->
+  forall (lp1 ld1 lp2 ld2 : V3R) (eps : R),
+  line_to_line (rigid Rg t lp1) (mulMV Rg ld1) (rigid Rg t lp2) (mulMV Rg ld2) eps =
+  map3 Rg t (line_to_line lp1 ld1 lp2 ld2 eps).
+Proof. exact line_to_line_rigid. Qed.
+Print Assumptions C12_line_to_line_rigid.
+
+Theorem C12_line_to_line_segment_rigid :
+  forall (Rg : M3 R) (t : V3R),
+  is_rotation Rg ->
+  forall (lp ld s0 e0 : V3R) (eps : R),
+  line_to_line_segment (rigid Rg t lp) (mulMV Rg ld) (rigid Rg t s0) (rigid Rg t e0) eps =
+  map3 Rg t (line_to_line_segment lp ld s0 e0 eps).
+Proof. exact line_to_line_segment_rigid. Qed.
+Print Assumptions C12_line_to_line_segment_rigid.
+
+Theorem C12_line_segment_to_line_segment_rigid :
+  forall (Rg : M3 R) (t : V3R),
+  is_rotation Rg ->
+  forall (s1 e1 s2 e2 : V3R) (eps : R),
+  line_segment_to_line_segment (rigid Rg t s1) (rigid Rg t e1) (rigid Rg t s2) (rigid Rg t e2) eps =
+  map3 Rg t (line_segment_to_line_segment s1 e1 s2 e2 eps).
+Proof. exact line_segment_to_line_segment_rigid. Qed.
+Print Assumptions C12_line_segment_to_line_segment_rigid.
+
+Theorem C12_point_to_plane_rigid :
+  forall (Rg : M3 R) (t : V3R),
+  is_rotation Rg ->
+  forall p pp pn : V3R,
+  point_to_plane (rigid Rg t p) (rigid Rg t pp) (mulMV Rg pn) = map2 Rg t (point_to_plane p pp pn).
+Proof. exact point_to_plane_rigid. Qed.
+Print Assumptions C12_point_to_plane_rigid.
+
+Theorem C12_line_to_plane_rigid :
+  forall (Rg : M3 R) (t : V3R),
+  is_rotation Rg ->
+  forall (lp ld pp pn : V3R) (eps : R),
+  line_to_plane (rigid Rg t lp) (mulMV Rg ld) (rigid Rg t pp) (mulMV Rg pn) eps =
+  map3 Rg t (line_to_plane lp ld pp pn eps).
+Proof. exact line_to_plane_rigid. Qed.
+Print Assumptions C12_line_to_plane_rigid.
+
+Theorem C12_line_segment_to_plane_rigid :
+  forall (Rg : M3 R) (t : V3R),
+  is_rotation Rg ->
+  forall (s e pp pn : V3R) (eps : R),
+  line_segment_to_plane (rigid Rg t s) (rigid Rg t e) (rigid Rg t pp) (mulMV Rg pn) eps =
+  map3 Rg t (line_segment_to_plane s e pp pn eps).
+Proof. exact line_segment_to_plane_rigid. Qed.
+Print Assumptions C12_line_segment_to_plane_rigid.
+
+Theorem C12_point_to_triangle_rigid :
+  forall (Rg : M3 R) (t : V3R),
+  is_rotation Rg ->
+  forall p a b c : V3R,
+  point_to_triangle (rigid Rg t p) (rigid Rg t a) (rigid Rg t b) (rigid Rg t c) =
+  map2 Rg t (point_to_triangle p a b c).
+Proof. exact point_to_triangle_rigid. Qed.
+Print Assumptions C12_point_to_triangle_rigid.
+
+Theorem C12_point_to_rectangle_rigid :
+  forall (Rg : M3 R) (t : V3R),
+  is_rotation Rg ->
+  forall (p c a0 a1 : V3R) (l0 l1 : R),
+  point_to_rectangle (rigid Rg t p) (rigid Rg t c) (mulMV Rg a0) (mulMV Rg a1) l0 l1 =
+  map2 Rg t (point_to_rectangle p c a0 a1 l0 l1).
+Proof. exact point_to_rectangle_rigid. Qed.
+Print Assumptions C12_point_to_rectangle_rigid.
+
+Theorem C12_point_to_disk_rigid :
+  forall (Rg : M3 R) (t : V3R),
+  is_rotation Rg ->
+  forall (p c : V3R) (r : R) (n : V3R),
+  point_to_disk (rigid Rg t p) (rigid Rg t c) r (mulMV Rg n) = map2 Rg t (point_to_disk p c r n).
+Proof. exact point_to_disk_rigid. Qed.
+Print Assumptions C12_point_to_disk_rigid.
+
+Theorem C12_point_to_circle_rigid :
+  forall (Rg : M3 R) (t : V3R),
+  is_rotation Rg ->
+  forall (p c : V3R) (r : R) (n : V3R) (eps : R),
+  let dip := vsub (vsub p c) (vscale (dot (vsub p c) n) n) in
+  (eps <= dot dip dip)%R ->
+  point_to_circle (rigid Rg t p) (rigid Rg t c) r (mulMV Rg n) eps =
+  map2 Rg t (point_to_circle p c r n eps).
+Proof. exact point_to_circle_rigid. Qed.
+Print Assumptions C12_point_to_circle_rigid.
+
+Theorem C12_point_to_circle_dist_rigid :
+  forall (Rg : M3 R) (t : V3R),
+  is_rotation Rg ->
+  forall (p c : V3R) (r : R) (n : V3R) (eps : R),
+  fst (point_to_circle (rigid Rg t p) (rigid Rg t c) r (mulMV Rg n) eps) =
+  fst (point_to_circle p c r n eps).
+Proof. exact point_to_circle_dist_rigid. Qed.
+Print Assumptions C12_point_to_circle_dist_rigid.
+
+Theorem C12_point_to_box_rigid :
+  forall (Rg : M3 R) (t : V3R),
+  is_rotation Rg ->
+  forall (p : V3R) (T : Pose R) (sz : V3R),
+  point_to_box (rigid Rg t p) (moveP Rg t T) sz = map2 Rg t (point_to_box p T sz).
+Proof. exact point_to_box_rigid. Qed.
+Print Assumptions C12_point_to_box_rigid.
+
+Theorem C12_point_to_cylinder_rigid :
+  forall (Rg : M3 R) (t : V3R),
+  is_rotation Rg ->
+  forall (p : V3R) (T : Pose R) (r l : R),
+  point_to_cylinder (rigid Rg t p) (moveP Rg t T) r l = map2 Rg t (point_to_cylinder p T r l).
+Proof. exact point_to_cylinder_rigid. Qed.
+Print Assumptions C12_point_to_cylinder_rigid.
+
+Theorem C12_plane_to_plane_dist_rigid :
+  forall (Rg : M3 R) (t : V3R),
+  is_rotation Rg ->
+  forall (p1 n1 p2 n2 : V3R) (eps : R),
+  fst (fst (plane_to_plane (rigid Rg t p1) (mulMV Rg n1) (rigid Rg t p2) (mulMV Rg n2) eps)) =
+  fst (fst (plane_to_plane p1 n1 p2 n2 eps)).
+Proof. exact plane_to_plane_dist_rigid. Qed.
+Print Assumptions C12_plane_to_plane_dist_rigid.
+
+Theorem C12_line_to_line_swap :
+  forall (lp1 ld1 lp2 ld2 : V3R) (eps : R),
+  (eps <= Rabs (1 - - dot ld1 ld2 * - dot ld1 ld2))%R ->
+  line_to_line lp2 ld2 lp1 ld1 eps =
+  (let '(d, c1, c2) := line_to_line lp1 ld1 lp2 ld2 eps in (d, c2, c1)).
+Proof. exact line_to_line_swap. Qed.
+Print Assumptions C12_line_to_line_swap.
+
+Theorem C12_plane_to_plane_swap_parallel :
+  forall (p1 p2 n : V3R) (eps : R),
+  (0 <= eps)%R -> fst (fst (plane_to_plane p2 n p1 n eps)) = fst (fst (plane_to_plane p1 n p2 n eps)).
+Proof. exact plane_to_plane_swap_parallel. Qed.
+Print Assumptions C12_plane_to_plane_swap_parallel.
+
+Theorem C12_point_to_line_scale :
+  forall s : R,
+  (0 < s)%R ->
+  forall p lp ld : V3R, point_to_line (vscale s p) (vscale s lp) ld = smap2 s (point_to_line p lp ld).
+Proof. exact point_to_line_scale. Qed.
+Print Assumptions C12_point_to_line_scale.
+
+Theorem C12_point_to_plane_scale :
+  forall s : R,
+  (0 < s)%R ->
+  forall p pp pn : V3R, point_to_plane (vscale s p) (vscale s pp) pn = smap2 s (point_to_plane p pp pn).
+Proof. exact point_to_plane_scale. Qed.
+Print Assumptions C12_point_to_plane_scale.
+
+Theorem C12_point_to_line_segment_scale :
+  forall s : R,
+  (0 < s)%R ->
+  forall p a e : V3R,
+  dot (vsub e a) (vsub e a) <> 0%R ->
+  point_to_line_segment (vscale s p) (vscale s a) (vscale s e) = smap2 s (point_to_line_segment p a e).
+Proof. exact point_to_line_segment_scale. Qed.
+Print Assumptions C12_point_to_line_segment_scale.
 
 (** ** AABBs are NOT invariant under rotation (deliberately outside C12) *)
 Theorem C12_aabb_not_invariant :
